@@ -123,3 +123,43 @@ class FunctionAxiomsBase(_Contract):
         from pyvc.lean import check_lemmas
 
         return check_lemmas(self.lemma_files[0], self.THEOREMS)
+
+
+# ----------------------------------------------------------------------------- bounded native sweeps at larger sizes
+def native_sweep(contract, cases, envs=None, tries=4, seed=0, name="bounded_native_sweep_at_larger_sizes"):
+    """B: the contract's own postcondition evaluated natively (unpatched function, floats) on random inputs for cases
+    beyond the shapes of the symbolic runs.  Never counted as proved; a failure is a violation with its input."""
+    import random
+
+    from pyvc import runner
+
+    out = []
+    for ci, case in enumerate(cases):
+        rng = random.Random(f"{seed}:{contract.name}:{ci}")
+        done, witness = 0, None
+        for k in range(tries * 3):
+            env = envs(case, rng) if envs else {}
+            try:
+                r, detail, _ = runner.native_replay(contract, case, env, rng=rng)
+            except Exception as e:  # the sweep itself must not crash the check
+                witness = {"case": {k_: v for k_, v in case.items() if not k_.startswith("_")}, "exception": repr(e)}
+                break
+            if r is None:
+                continue  # precondition not met by the random input
+            done += 1
+            failed = [n for n, ok in r if not ok]
+            if failed:
+                witness = {"case": {k_: v for k_, v in case.items() if not k_.startswith("_")}, "failed": failed, "inputs_and_outcome": detail}
+                break
+            if done >= tries:
+                break
+        cid = contract.case_id(case)
+        out.append({"name": name, "ok": witness is None and done > 0, "case": cid, "function": contract.target, "witness": witness, "detail": f"{done} native runs of {contract.name}[{cid}]" + ("" if done else " - no random input met the precondition")})
+    return out
+
+
+def sorted_env(prefix, n, rng, lo=-5.0, hi=5.0):
+    vals = sorted({round(rng.uniform(lo, hi), 3) for _ in range(n * 3)})
+    rng.shuffle(vals)
+    vals = sorted(vals[:n])
+    return {f"{prefix}_{i}": v for i, v in enumerate(vals)}
